@@ -832,3 +832,102 @@ pub fn tfan_pair(rng: &mut Rng) -> (Vec<(Vec<P>, Vec<Vec<P>>)>, Vec<(Vec<P>, Vec
         return (vec![(ta, vec![])], vec![(tb, vec![])]);
     }
 }
+
+/// family "pinch": many rings through ONE vertex V. Rays leave V in distinct directions (all to the
+/// right of V, or all around it); the wedge between two consecutive rays is a triangle
+/// (V, P_j, P_j+1), runs of adjacent selected wedges are merged into one radially monotone ring.
+/// Every operand drawn from one context uses the same rays and the same points P_j, so operands
+/// meet only in V, along common ray segments and in common chain edges: every meeting point is a
+/// lattice point. Operand shapes: the selected wedges as separate polygons (n rings whose
+/// leftmost vertex is V when the rays point right), the same wedges as HOLES of an enclosing
+/// polygon (V inside it, or V a vertex on its left side), or a rectangle covering everything.
+pub fn pinch_set(rng: &mut Rng, n: usize) -> Vec<Vec<(Vec<P>, Vec<Vec<P>>)>> {
+    loop {
+        let right_only = rng.chance(3, 5);
+        let k = rng.range(4, 10) as usize;
+        let v = (rng.range(-1200, 1200), rng.range(-1200, 1200));
+        let mut dirs: Vec<P> = vec![];
+        let mut tries = 0;
+        while dirs.len() < k && tries < 1000 {
+            tries += 1;
+            let d = (if right_only { rng.range(1, 12) } else { rng.range(-12, 12) }, rng.range(-12, 12));
+            if d == (0, 0) || dirs.iter().any(|e| cross(*e, d) == 0 && dot(*e, d) > 0) {
+                continue;
+            }
+            dirs.push(d);
+        }
+        if dirs.len() < k {
+            continue;
+        }
+        if right_only {
+            dirs.sort_by(|a, b| 0.cmp(&cross(*a, *b)));
+        } else {
+            let half = |d: &P| if d.1 > 0 || (d.1 == 0 && d.0 > 0) { 0 } else { 1 };
+            dirs.sort_by(|a, b| half(a).cmp(&half(b)).then(0.cmp(&cross(*a, *b))));
+        }
+        let pts: Vec<P> = dirs.iter().map(|d| { let t = rng.range(1, 100); (v.0 + t * d.0, v.1 + t * d.1) }).collect();
+        // wedge j lies between ray j and ray j+1 (cyclically when the rays go all around)
+        let nw = if right_only { k - 1 } else { k };
+        let usable: Vec<bool> = (0..nw).map(|j| cross(dirs[j], dirs[(j + 1) % k]) > 0).collect();
+        if usable.iter().filter(|u| **u).count() < 3 {
+            continue;
+        }
+        let (x1, h) = (v.0 + 1300, 1300);
+        let mut out = vec![];
+        for _ in 0..n {
+            let shape = rng.below(10);
+            if shape == 0 {
+                let m = rng.range(1, 40);
+                out.push(vec![(rect_ring(v.0 - 1300 - m, v.1 - h - m, x1 + m, v.1 + h + m, true), vec![])]);
+                continue;
+            }
+            let alt = rng.chance(1, 2);
+            let par = rng.below(2) as usize;
+            let mut sel: Vec<bool> = (0..nw).map(|j| usable[j] && if alt { rng.chance(if j % 2 == par { 9 } else { 1 }, 10) } else { rng.chance(1, 2) }).collect();
+            if !right_only && sel.iter().all(|s| *s) {
+                sel[0] = false;
+            }
+            if !right_only && sel[nw - 1] && sel[0] {
+                // rotate so that no run wraps around the end of the list
+                sel[rng.chance(1, 2) as usize * (nw - 1)] = false;
+            }
+            // runs of adjacent selected wedges
+            let mut rings: Vec<Vec<P>> = vec![];
+            let mut j = 0;
+            while j < nw {
+                if !sel[j] {
+                    j += 1;
+                    continue;
+                }
+                let mut m = j;
+                while m + 1 < nw && sel[m + 1] {
+                    m += 1;
+                }
+                let mut ring = vec![v];
+                for i in j..=m + 1 {
+                    ring.push(pts[i % k]);
+                }
+                rings.push(ring);
+                j = m + 1;
+            }
+            if rings.is_empty() || rings.iter().any(|r| area2(r) <= 0) {
+                out.push(vec![(rect_ring(v.0 - 1300, v.1 - h, x1, v.1 + h, true), vec![])]);
+                continue;
+            }
+            if shape <= 5 {
+                out.push(rings.into_iter().map(|r| (r, vec![])).collect());
+            } else {
+                let holes: Vec<Vec<P>> = rings.into_iter().map(|mut r| { r.reverse(); r }).collect();
+                let ext = if right_only && shape <= 7 {
+                    vec![v, (v.0, v.1 - h), (x1, v.1 - h), (x1, v.1 + h), (v.0, v.1 + h)]
+                } else if right_only {
+                    vec![(v.0 - 7, v.1), (v.0, v.1 - h), (x1, v.1 - h), (x1, v.1 + h), (v.0, v.1 + h)]
+                } else {
+                    rect_ring(v.0 - 1300, v.1 - h, x1, v.1 + h, true)
+                };
+                out.push(vec![(ext, holes)]);
+            }
+        }
+        return out;
+    }
+}
